@@ -151,6 +151,15 @@ MUTANTS = [
     ("c16-track-shares", "C16", "scoda/elements/track.py", "[bar.copy() for bar in self.bars]", "[bar for bar in self.bars]", {"OWN1"}),
     ("c16-conversion-shares", "C16", ABS, "                message_to_add = msg.copy()\n                message_to_add.time = None", "                message_to_add = msg", {"OWN1"}),
     # ---- C17
+    ("c18-cutoff-only-unclosed", "C18", ABS, "                if len(message_pairing) == 1:\n                    if not message_pairing[0].message_type", "                if len(message_pairing) != 1:\n                    if not message_pairing[0].message_type", {"CUT"}),
+    ("c18-pad-extra-guard", "C18", REL, "        if current_length < padding_length:\n            self._messages.append(", "        if current_length < padding_length and default_channel is not None:\n            self._messages.append(", {"PAD"}),
+    ("c06-noext-only-last-occurrence", "C06", ABS, "                for note_value in note_values:\n                    possible_correction = note_value - current_duration\n\n                    if possible_correction > 0 and do_not_extend and note_value in valid_durations:\n                        valid_durations.remove(note_value)",
+     "                if index == len(note_occurrences[note]) - 1:\n                    for note_value in note_values:\n                        possible_correction = note_value - current_duration\n\n                        if possible_correction > 0 and do_not_extend and note_value in valid_durations:\n                            valid_durations.remove(note_value)", {"NOEXT"}),
+    ("c07-sig-quotient", "C07", REL, "if msg.numerator != current_ts_numerator or msg.denominator != current_ts_denominator:", "if msg.numerator / msg.denominator != current_ts_numerator:", {"SIG"}),
+    ("c15-sig-quotient", "C15", REL, "if msg.numerator != current_ts_numerator or msg.denominator != current_ts_denominator:", "if msg.numerator / msg.denominator != current_ts_numerator:", {"SIG"}),
+    ("c15-bisect-lo-one", "C15", "scoda/misc/util.py", "    lo = 0\n    hi = len(collection)", "    lo = 1\n    hi = len(collection)", {"BISECT"}),
+    ("c04-bisect-wrong-half", "C04", "scoda/misc/util.py", "            hi = mid\n        else:\n            lo = mid + 1", "            lo = mid + 1\n        else:\n            hi = mid", {"ABS-SORTED"}),
+    ("c14-normalise-extra-guard", "C14", SEQ, "        if shifted:\n", "        if shifted and interval > 0:\n", {"DELEG"}),
     ("c17-true-on-length-mismatch", "C17", ABS, "        if not len(self_pairings) == len(other_pairings):\n            return False", "        if not len(self_pairings) == len(other_pairings):\n            return True", {"RET", "LEN"}),
     ("c17-type-test-inverted", "C17", ABS, "if self_msg.message_type != other_msg.message_type:", "if self_msg.message_type == other_msg.message_type:", {"RET"}),
     ("c17-default-ignores-channel", "C17", ABS, "ignore_channel: bool = False,\n               ignore_time_signature", "ignore_channel: bool = True,\n               ignore_time_signature", {"RET"}),
